@@ -2,3 +2,6 @@
 
 pub mod pool;
 pub mod recovery;
+
+#[cfg(any(humphrey_verif, humphrey_verif_shim))]
+pub mod verif_shim;
